@@ -171,7 +171,13 @@ class TagError(Exception):
     pass
 
 
-EXC_KINDS = ['tag', 'value', 'key', 'zero', 'os', 'lookup']
+EXC_KINDS = ['tag', 'value', 'key', 'zero', 'os', 'lookup', 'deep']
+
+
+def _raise_deep(n, tag):
+    if n <= 0:
+        raise ValueError(tag, 'deep')
+    _raise_deep(n - 1, tag)
 
 
 def _raise(exck, cid, pos):
@@ -190,6 +196,8 @@ def _raise(exck, cid, pos):
         raise LookupError(tag, pos, ('nested', pos))
     if exck == 'stop':
         raise StopIteration(tag)
+    if exck == 'deep':
+        _raise_deep(700, tag)       # raised 700 frames down: a very deep remote traceback
     raise RuntimeError('bad exception kind %r' % (exck,))
 
 
